@@ -38,6 +38,15 @@ class LimitGatedScheduler;
 
 struct SchedulePlacedWrapper;
 
+// A task that is skipped because its set was canceled is destroyed with its wrapper.  OnceFunction has no
+// destructor (its functor is released by operator() or cleanupNotRun()), so a skipped OnceFunction must be
+// released explicitly or its captures leak.
+template <typename F>
+inline void discardSkippedTask(F& /*f*/) {}
+inline void discardSkippedTask(OnceFunction& f) {
+  f.cleanupNotRun();
+}
+
 DISPENSO_DLL_ACCESS void pushThreadTaskSet(TaskSetBase* tasks);
 DISPENSO_DLL_ACCESS void popThreadTaskSet();
 
@@ -135,6 +144,8 @@ class TaskSetBase {
 #else
         f();
 #endif // __cpp_exceptions
+      } else {
+        detail::discardSkippedTask(f);
       }
       if (pushed) {
         detail::popThreadTaskSet();
@@ -164,6 +175,8 @@ class TaskSetBase {
 #else
         f();
 #endif // __cpp_exceptions
+      } else {
+        detail::discardSkippedTask(f);
       }
       if (pushed) {
         detail::popThreadTaskSet();
